@@ -489,7 +489,7 @@ def gen_cases(ctx, nwallets, npaths, nraw):
         while len(kinds) < npaths:
             kinds.append(rng.choice(KINDS))
         for k in kinds:
-            cases.append({'origin': origin, 'ops': gen_ops(rng, k), 'msg': rand_msg(rng), 'kind': k})
+            cases.append({'origin': origin, 'ops': gen_ops(rng, k), 'msg': rand_msg(rng), 'kind': k, 'siblings': rng.random() < 0.5})
     for bad in (0, 15, 17, 33, 64):
         cases.append({'origin': {'kind': 'entropy', 'entropy': 'ab' * bad, 'passphrase': 'x'},
                       'ops': [['derive', 0, True, True]], 'msg': '', 'kind': 'bad-entropy-length'})
